@@ -248,6 +248,48 @@ theorem fast_path_asis_witness :
     Render.fastPath "100%%s".toList [.str "x".toList] = none := by decide
 
 
+/-- the Write calls of Stringf, concatenated, are its body -/
+theorem stringf_writes_concat (format : Bytes) (args : List Render.Arg) (sprintf : Bytes) :
+    (Render.stringfWrites format args sprintf).flatten = Render.stringfBody format args sprintf := by
+  unfold Render.stringfWrites Render.stringfBody Render.fastPath
+  match args with
+  | [] => simp
+  | [.other] => simp
+  | [.str v] =>
+    simp only []
+    cases Render.cutPctS format with
+    | none => simp
+    | some pp =>
+      obtain ⟨pre, post⟩ := pp
+      simp only []
+      split
+      · simp
+      · cases pre <;> cases v <;> cases post <;> simp [List.filter_cons]
+  | _ :: _ :: _ => simp
+
+/-- **stringf_success_exact.** On a response writer that fails at any Write (or never), whenever Stringf
+    reports success the bytes delivered are exactly its documented body — nothing of a failed attempt,
+    nothing twice. -/
+theorem stringf_success_exact (k : Nat) (format : Bytes) (args : List Render.Arg) (sprintf : Bytes)
+    (h : (Render.stringfOnFlaky k format args sprintf).1 = true) :
+    (Render.stringfOnFlaky k format args sprintf).2 = Render.stringfBody format args sprintf := by
+  unfold Render.stringfOnFlaky at h ⊢
+  simp only [] at h ⊢
+  split at h
+  · simp at h
+  · rename_i hc
+    simp only [hc, if_false, Bool.false_eq_true]
+    exact stringf_writes_concat format args sprintf
+
+example : Render.stringfOnFlaky 0 "a%sb".toList [.str "x".toList] "axb".toList = (true, "axb".toList) := by decide
+example : Render.stringfOnFlaky 2 "a%sb".toList [.str "x".toList] "axb".toList = (false, "a".toList) := by decide
+
+/-- K19i as shipped: the second of the three fast-path writes fails once; Stringf reports success and
+    the client has `a` followed by the whole response -/
+theorem stringf_flaky_asis_witness :
+    Render.stringfOnFlakyAsIs 2 "a%sb".toList [.str "x".toList] "axb".toList = (true, "aaxb".toList) ∧
+    Render.stringfBody "a%sb".toList [.str "x".toList] "axb".toList = "axb".toList := by decide
+
 end Stringf
 
 /-! ## 4. ASCIIJSON: pure ASCII, decodes to the same value -/
